@@ -1774,6 +1774,11 @@ impl Element for XmlElement {
 
 impl ElementMut for XmlElement {
     fn set_attribute(&self, name: &str, value: &str) -> error::Result<()> {
+        // an attribute of that name keeps its node and gets the new value
+        if let Some(attr) = self.get_attribute_node(name) {
+            return attr.set_value(value);
+        }
+
         let attr = self.owner_document().unwrap().create_attribute(name)?;
         attr.set_value(value)?;
         self.set_attribute_node(attr)?;
